@@ -71,7 +71,7 @@ def check_program(env, prog, label, ndata):
             values.append(r.value)
     if not values:
         return
-    extra = [c for v in values[:3] for c in harness.undefined_variants(t, v)]
+    extra = [c for v in values[:3] for c in harness.undefined_variants(t, v)] + [c for v in values[:3] for c in harness.sequence_variants(t, v)]
     if extra:
         env.count("undefined_by_construction_values", len(extra))
         values += extra
